@@ -305,3 +305,13 @@ Example dishonest_link_shows_inode_metadata :
   /\ nth_error (ds_notifs r) 3 = Some (KAdd, [100], Some (mk [100] 384 7 0 3 9 pc 0 0, []))
   /\ ds_reqs r = [pa; pc].
 Proof. cbv zeta. split; [apply links_ok_b_sound; vm_compute; reflexivity|]. vm_compute. repeat split; reflexivity. Qed.
+
+(* ---- source equivalence (tools/go2coq; gen/SrcFns.v is regenerated from /repo on every run): the
+        Gallina definition translated from diff_containerd.go's compareStat (field accesses mapped to
+        Model/Stat.v's record) equals the model compare_stat and never returns an error ---- *)
+From FSGen Require SrcFns.
+From FS Require Proofs.Src.CompareStatEq.
+Theorem compareStat_src_eq :
+  forall a b, SrcFns.compareStat a b = (compare_stat a b, None).
+Proof. exact CompareStatEq.compareStat_src_eq. Qed.
+Print Assumptions compareStat_src_eq.
